@@ -162,3 +162,25 @@ def validate_with_known(pid, path, tag, known):
     raise ToolError("too many known-finding deviations in one trace")
 
 
+
+
+def apalache_inductive(module, tag):
+    """unbounded design check with Apalache: Init => IndInv, IndInv /\\ Next => IndInv', IndInv => Safety"""
+    d = os.path.join(SPEC, "apalache")
+    outdir = os.path.join(OUT, "apalache", tag)
+    shutil.rmtree(outdir, ignore_errors=True)
+    os.makedirs(outdir, exist_ok=True)
+    steps = [("Init", "IndInv", "0"), ("IndInit", "IndInv", "1"), ("IndInit", "Safety", "0")]
+    t0 = time.time()
+    for init, inv, length in steps:
+        cmd = ["apalache-mc", "check", "--out-dir=" + outdir, "--cinit=ConstInit", "--init=" + init, "--inv=" + inv,
+               "--length=" + length, module + ".tla"]
+        try:
+            rc, out = run(cmd, cwd=d, timeout=900)
+        except subprocess.TimeoutExpired:
+            raise ToolError("apalache timed out on %s (%s => %s)" % (module, init, inv))
+        if "The outcome is: NoError" not in out:
+            raise ToolError("apalache does not establish %s => %s for %s:\n%s" % (init, inv, module, out[-1500:]))
+    shutil.rmtree(outdir, ignore_errors=True)
+    return dict(name=module, obligations=len(steps), discharged=len(steps), wall=round(time.time() - t0, 1),
+                what="inductive invariant, unbounded in N and Wd")
